@@ -698,7 +698,7 @@ Definition ex_seeded : world :=
   mkW [mkN "a" [] [] None None false false false [] [];
        mkN "s" [0] [] None (Some 0) true false false [] [];
        mkN "x_var_value" [1] [] None (Some 0) false false false [] []]
-      [mkV "x" 1 2 None false false []] [].
+      [mkV "x" 1 2 None false false [] false] [].
 
 Definition rebuild (strip : bool) (w : world) (rn : list nid) (rv : list vid) : world * result model * result model :=
   match build strip true true naive_topo false w rn rv with
@@ -1064,7 +1064,7 @@ Definition ex_proxies : world :=
        mkN "own_b" [] [] None (Some 1) false false false [] [];
        mkN "_var_value" [0] [] None (Some 0) false false false [] [];
        mkN "_var_value" [1] [] None (Some 1) false false false [] []]
-      [mkV "" 0 2 None false false []; mkV "" 1 3 None false false []] [].
+      [mkV "" 0 2 None false false [] false; mkV "" 1 3 None false false [] false] [].
 
 Example unnamed_vars_named_values_example :
   match build true true true naive_topo false ex_proxies [] [0; 1] with
@@ -1178,3 +1178,107 @@ Example rename_between_pop_and_rebuild_example :
   | _ => False
   end.
 Proof. vm_compute. repeat split; try tauto. intros H. repeat destruct H as [H|H]; try discriminate; exact H. Qed.
+
+(* ------------------------------------------------------------------------------------------ *)
+(* auto_transform: build_model transforms exactly the flagged variables and clears the flag on the
+   ORIGINAL variable, so a second build over the same variables finds nothing to transform     *)
+Lemma getv_setv : forall w v f u,
+  getv (setv w v f) u = if Nat.eqb v u then option_map f (getv w u) else getv w u.
+Proof. intros. unfold getv, setv. cbn. apply nth_update. Qed.
+
+Lemma transform_default_flags : forall w v w',
+  transform_default w v = (w', Ok tt) ->
+  forall u, is_auto w' u = true -> u <> v /\ is_auto w u = true.
+Proof.
+  intros w v w' H u Hu. unfold transform_default in H.
+  destruct (getv w v) as [pv|] eqn:G; [|discriminate].
+  destruct (getn w (v_value pv)) as [vn|]; destruct (v_dist pv) as [d|]; try discriminate.
+  destruct (getn w d) as [dn|]; [|discriminate].
+  destruct (negb (strong_node vn)); [discriminate|].
+  destruct (n_inmodel vn); [discriminate|].
+  inversion H as [Hw]. clear H. subst w'.
+  unfold is_auto in Hu. rewrite getv_setv in Hu.
+  destruct (Nat.eqb v u) eqn:E.
+  - exfalso. match type of Hu with context [option_map ?f ?o] => destruct o end; cbn in Hu; discriminate.
+  - apply Nat.eqb_neq in E. split; [congruence|].
+    unfold getv in Hu. cbn [w_vars] in Hu.
+    unfold is_auto, getv.
+    destruct (Nat.lt_ge_cases u (List.length (w_vars w))) as [L|L].
+    + rewrite nth_error_app1 in Hu by exact L. exact Hu.
+    + rewrite nth_error_app2 in Hu by exact L.
+      destruct (u - List.length (w_vars w)) as [|k]; cbn in Hu; [discriminate|].
+      destruct k; discriminate.
+Qed.
+
+Lemma auto_transform_all_flags : forall vs w w',
+  auto_transform_all w vs = (w', Ok tt) ->
+  forall u, is_auto w' u = true -> ~ In u vs /\ is_auto w u = true.
+Proof.
+  unfold auto_transform_all.
+  induction vs as [|v r IH]; intros w w' H u Hu; cbn [fold_left] in H.
+  - inversion H; subst. split; [intros []|assumption].
+  - cbn [transform_step] in H. destruct (is_auto w v) eqn:A.
+    + destruct (transform_default w v) as [w1 [[]|e]] eqn:T.
+      * destruct (IH _ _ H u Hu) as [N1 A1].
+        destruct (transform_default_flags _ _ _ T u A1) as [N2 A2].
+        split; [|assumption]. intros [E|E]; [now subst|now apply N1].
+      * exfalso. clear - H. induction r as [|x r IHr]; cbn in H; [discriminate|now apply IHr].
+    + destruct (IH _ _ H u Hu) as [N1 A1]. split; [|assumption].
+      intros [E|E]; [subst; congruence|now apply N1].
+Qed.
+
+(* after the transforms no variable of the list carries the flag any more ... *)
+Theorem auto_transform_clears_flags : forall w vs w',
+  auto_transform_all w vs = (w', Ok tt) -> forall v, In v vs -> is_auto w' v = false.
+Proof.
+  intros w vs w' H v Hv. destruct (is_auto w' v) eqn:A; [|reflexivity].
+  destruct (auto_transform_all_flags _ _ _ H v A) as [N _]. contradiction.
+Qed.
+
+(* ... and no new flag appears anywhere (in particular not on the new transformed variables) *)
+Theorem auto_transform_no_new_flags : forall w vs w',
+  auto_transform_all w vs = (w', Ok tt) -> forall u, is_auto w' u = true -> is_auto w u = true.
+Proof. intros w vs w' H u A. now destruct (auto_transform_all_flags _ _ _ H u A). Qed.
+
+(* a build over variables without the flag transforms nothing: the second build of a round trip *)
+Theorem auto_transform_noop : forall vs w,
+  (forall v, In v vs -> is_auto w v = false) -> auto_transform_all w vs = (w, Ok tt).
+Proof.
+  unfold auto_transform_all. induction vs as [|v r IH]; intros w H; [reflexivity|].
+  cbn [fold_left transform_step]. rewrite (H v (or_introl eq_refl)). apply IH.
+  intros u Hu. apply H. now right.
+Qed.
+
+(* rate = Value, scale ~ Dist(rate) with auto_transform, proxy *)
+Definition ex_auto : world :=
+  mkW [mkN "rate" [] [] None None false false false [] [];
+       mkN "scale_value" [] [] None (Some 0) false false false [] [];
+       mkN "scale_var_value" [1] [] None (Some 0) false false false [] [];
+       mkN "scale_log_prob" [0] [] (Some 2) (Some 0) false true false [] []]
+      [mkV "scale" 1 2 (Some 3) false true [] true] [].
+
+Definition set_auto (b : bool) (p : pvar) : pvar :=
+  mkV (v_name p) (v_value p) (v_varvalue p) (v_dist p) (v_obs p) (v_par p) (v_groups p) b.
+
+(* build (transforms scale), pop, rebuild: accepted, same node and variable names, nothing transformed twice *)
+Example auto_transform_round_trip_example :
+  match build true true true naive_topo false ex_auto [] [0] with
+  | (w1, Ok m1) =>
+    map (vname_of w1) (m_vars m1) = ["scale"; "scale_transformed"]%string /\
+    is_auto w1 0 = false /\ is_auto w1 1 = false /\
+    match build true true true naive_topo false (pop w1 m1) (popped_nodes w1 m1) (m_vars m1) with
+    | (w2, Ok m2) => List.length (m_nodes m2) = List.length (m_nodes m1) /\
+                     map (vname_of w2) (m_vars m2) = ["scale_transformed"; "scale"]%string /\
+                     List.length (w_vars w2) = List.length (w_vars w1)
+    | _ => False
+    end
+  | _ => False
+  end.
+Proof. vm_compute. repeat split; reflexivity. Qed.
+
+(* the flag left on the original (and reset on the new variable instead: seeded change C15-9): the next
+   build tries to transform the already transformed, now weak, variable *)
+Theorem auto_flag_left_on_original_refuted :
+  exists w v w1, transform_default w v = (w1, Ok tt) /\
+    snd (transform_default (setv w1 v (set_auto true)) v) = Err BadTransform.
+Proof. exists ex_auto, 0. eexists. split; [vm_compute; reflexivity|vm_compute; reflexivity]. Qed.
